@@ -466,10 +466,11 @@ structure Fix where
   redisEmptyPart : Bool := true  -- redis.py update with an empty part changes nothing
   redisFreshId : Bool := true    -- redis.py _get_next_id skips ids in use
   apiReplace : Bool := true      -- persist.replace returns True iff an existing record was replaced
+  mongoIdFull : Bool := true     -- mongo.py _id_to_db: the ObjectId pattern must match the whole id (fullmatch)
   deriving Repr
 
 def Fix.repaired : Fix := {}
-def Fix.asFound : Fix := ⟨false, false, false, false, false, false, false⟩
+def Fix.asFound : Fix := ⟨false, false, false, false, false, false, false, false⟩
 
 /-- `utils/json.py dumps(v, extra_types=EXTENDED)` = RedisDriver._value_to_db. -/
 def encodeVal (fx : Fix) (ft : FloatText) : JVal → Str
@@ -1085,9 +1086,11 @@ inductive DbId where
 /-- `[0-9a-f]` -/
 def isLowerHex (c : Nat) : Bool := (48 ≤ c && c ≤ 57) || (97 ≤ c && c ≤ 102)
 
-/-- `_OBJECT_ID_RE = '^[0-9a-f]{24}$'` (`$` also matches before a final newline: the 25-character case) -/
-def isOidText (s : Str) : Bool :=
-  (s.length == 24 && s.all isLowerHex) || (s.length == 25 && (s.take 24).all isLowerHex && s.drop 24 == [10])
+/-- `_OBJECT_ID_RE = '^[0-9a-f]{24}$'`: with `fullmatch` (repaired) exactly 24 lower-case hex digits; with `match`
+(as found) `$` also matches before a final newline: the 25-character case -/
+def isOidText (fx : Fix) (s : Str) : Bool :=
+  (s.length == 24 && s.all isLowerHex) ||
+  (!fx.mongoIdFull && s.length == 25 && (s.take 24).all isLowerHex && s.drop 24 == [10])
 
 /-- `bytes.fromhex` on an even number of hex digits (either case) -/
 def hexBytes : Str → Option (List Nat)
@@ -1105,8 +1108,8 @@ def bytesHex : List Nat → Str
 
 /-- `_id_to_db`: strings that look like an ObjectId become one (`bson.ObjectId(id_)` raises `InvalidId` for
 anything but 24 hex digits: the `none` branch) -/
-def idToDb (s : Str) : Option DbId :=
-  if isOidText s then
+def idToDb (fx : Fix) (s : Str) : Option DbId :=
+  if isOidText fx s then
     (if s.length = 24 then hexBytes s else none).map .oid
   else some (.str s)
 
